@@ -48,7 +48,8 @@ namespace CDNS {
          */
         template<typename T>
         CdnsEncoder(const T& output, CborOutputCompression compression) : m_p(m_buffer),
-                                                                          m_avail(BUFFER_SIZE) {
+                                                                          m_avail(BUFFER_SIZE),
+                                                                          m_write_failed(false) {
             switch (compression) {
                 case CborOutputCompression::NO_COMPRESSION:
                     m_cos = std::make_unique<CborOutputWriter>(output);
@@ -217,11 +218,38 @@ namespace CDNS {
         /**
          * @brief Close the current output and open a new one with given file name or file descriptor
          * @param out New output to open (file name[std::string] or file descriptor[int])
+         * @throw CborOutputException if the new output can't be opened, or if the new output is opened, but
+         * the closed one is missing some data and no earlier write to it has failed with an exception
          */
         template<typename T>
         void rotate_output(const T& out) {
-            flush_buffer();
+            bool failed = false;
+            bool reported = m_write_failed;
+
+            try {
+                flush_buffer();
+            }
+            catch (std::exception& e) {
+                // Buffered data belongs to the output that is being closed and can't be written there
+                m_p = m_buffer;
+                m_avail = BUFFER_SIZE;
+                failed = true;
+            }
+
+            m_write_failed = false;
             m_cos->rotate_output(out);
+            failed = m_cos->close_failed() || failed;
+
+            if (failed && !reported)
+                throw CborOutputException("Couldn't write all data to the closed output!");
+        }
+
+        /**
+         * @brief Find out if writing to the current output has already failed with an exception
+         * @return `true` if some write to the current output has failed
+         */
+        bool write_failed() const {
+            return m_write_failed;
         }
 
         private:
@@ -259,5 +287,6 @@ namespace CDNS {
         unsigned char m_buffer[BUFFER_SIZE];
         unsigned char *m_p;
         std::size_t m_avail;
+        bool m_write_failed; //!< Some write to the current output has failed with an exception
     };
 }
